@@ -147,7 +147,7 @@ class World:
         return _np.array_equal(decode(j, f.format == 'GRAY'), pix) or bytes(j) == encode(pix)
 
     # ---- one op; returns (result frame index or None, returned jpg or None)
-    def apply(self, op):
+    def apply(self, op, check=True):
         F, fr = _Frame, self.frames
         k = op[0]
         res = jv = None
@@ -177,7 +177,8 @@ class World:
             if k == 'view':
                 v = op[1]
                 g = res = getattr(f, v)
-                if not src_img:
+                if not check: pass
+                elif not src_img:
                     if g is not f: self.viol(f'view-of-empty:{v}', 'a view of an image-less frame is not the frame itself')
                 else:
                     tgt = TARGET.get(v, src_fmt)
@@ -197,16 +198,17 @@ class World:
                             self.viol(f'alias:{v}', f'{v} returned a new frame on memory that was already reachable')
             elif k in ('copy', 'pickle'):
                 g = res = f.copy() if k == 'copy' else pickle.loads(pickle.dumps(f))
-                if g.format != src_fmt or bool(g.is_rw) != src_rw or g.has_image != src_img:
+                if not check: pass
+                elif g.format != src_fmt or bool(g.is_rw) != src_rw or g.has_image != src_img:
                     self.viol(f'{k}-changed', f'{k} changed format/writability')
                 elif src_img and not _np.array_equal(self.pixels(g), self.pixels(f)): self.viol(f'stale-view:{k}', f'{k} shows other pixels than its source')
-                if g.has_raw and (src_rw or k == 'pickle') and any(_np.shares_memory(g.image, a) for a in pre_arrs):
+                if check and g.has_raw and (src_rw or k == 'pickle') and any(_np.shares_memory(g.image, a) for a in pre_arrs):
                     self.viol(f'alias:{k}', f'{k} of a {"writable" if src_rw else "read-only"} frame shares memory with an existing array')
             elif k == 'image':
                 f.image
             elif k == 'jpg':
                 jv = f.jpg
-                if src_img:
+                if check and src_img:
                     if jv is None: self.viol('jpg-none', '.jpg returned None for a frame with an image')
                     elif not self.jpg_matches(jv, f, self.pixels(f)): self.viol('jpg-return-stale', '.jpg returned an encoding of other pixels than the current ones')
             elif k == 'write':
@@ -222,6 +224,15 @@ class World:
             if ri is None:
                 fr.append(res); ri = len(fr) - 1
         return ri, jv
+
+    def snapshot_ro(self):
+        """remember flag and pixels of every read-only image (cheap form of observe, used before the last step)"""
+        for f in self.frames:
+            if f.has_raw:
+                a = f.image
+                if not a.flags.writeable:
+                    c = self.cls(a)
+                    if c not in self.ro_seen: self.ro_seen[c] = (a, (a.shape, a.tobytes()))
 
     # ---- canonical observation + global oracle clauses
     def observe(self):
@@ -247,7 +258,8 @@ class World:
                     j = f.jpg
                     if (id(j), id(a)) not in self.jpg_ok:
                         self.keep.append(j)
-                        if self.jpg_matches(j, f, a): self.jpg_ok[(id(j), id(a))] = True
+                        if self.jpg_matches(j, f, a):
+                            if not a.flags.writeable: self.jpg_ok[(id(j), id(a))] = True    # read-only pixels are checked for change separately
                         else: self.viol('jpg-mismatch', 'a cached jpg does not decode to the pixels of its image')
             frames.append((img, f.format, None if hj is None else (bytes(f.jpg) if hj else False), d, bool(f.is_rw)))
         return frames, arrs
@@ -321,12 +333,9 @@ def run_case(case, every_step):
     for k, op in enumerate(ops):
         last = k == len(ops) - 1
         if not every_step and not last:
-            w.violations = []
-            try: w.apply(op)
+            try: w.apply(op, check=False)
             except Exception: pass
-            if k == len(ops) - 2:
-                w.violations = []
-                w.observe()              # snapshot of read-only arrays before the last step
+            if k == len(ops) - 2: w.snapshot_ro()
             continue
         try:
             ri, jv = w.apply(op)
@@ -347,6 +356,7 @@ class Batch:
     """collect cases, flush through the driver in chunks, compare"""
     def __init__(self, ctx, every_step):
         self.ctx, self.every, self.items, self.kinds = ctx, every_step, [], {}
+        self.pending = self.pool = None
 
     def add(self, case):
         res = self.ctx.result
@@ -360,14 +370,31 @@ class Batch:
             if key not in seen:
                 seen.add(key); res.violations.append(Violation(key, what, case))
         self.items.append((case, w, recs, bool(seen)))
-        if len(self.items) >= 4000: self.flush()
+        if len(self.items) >= 4000: self.flush(final=False)
         return w
 
-    def flush(self):
+    def flush(self, final=True):
+        """hand the collected cases to the driver (in a thread: the subprocess runs while the next chunk executes) and
+        compare the previous chunk"""
         items, self.items = self.items, []
-        drv, res = self.ctx.driver, self.ctx.result
-        if not drv or not items: return
-        out = drv.batch([{'op': 'c10.run', 'ops': c['ops'], 'last': not self.every} for c, _, _, _ in items])
+        drv = self.ctx.driver
+        fut = None
+        if drv and items:
+            if self.pool is None:
+                from concurrent.futures import ThreadPoolExecutor
+                self.pool = ThreadPoolExecutor(1)
+            fut = self.pool.submit(drv.batch, [{'op': 'c10.run', 'ops': c['ops'], 'last': not self.every} for c, _, _, _ in items])
+        self._compare()
+        self.pending = (items, fut) if fut else None
+        if final:
+            self._compare()
+            if self.pool is not None: self.pool.shutdown(); self.pool = None
+
+    def _compare(self):
+        if not self.pending: return
+        (items, fut), self.pending = self.pending, None
+        res = self.ctx.result
+        out = fut.result()
         for (case, w, recs, violated), m in zip(items, out):
             if 'err' in m:
                 res.disagreements.append({'point': 'c10.run', 'case': case, 'impl': 'ran', 'model': m}); continue
@@ -393,31 +420,62 @@ class Batch:
             if ok: res.traces_validated += 1
 
 
-def exhaustive(ctx, depth, narrow_from):
-    """all sequences of abstract ops up to `depth` from each start frame; targets = every live frame, from length
-    `narrow_from` on only the start frame and the newest frame"""
+def exhaustive(ctx, depth, narrow_from, starts=None):
+    """all sequences of abstract ops up to `depth` from each start frame (depth-first; every prefix is a case of its own);
+    targets = every live frame, from length `narrow_from` on only the start frame and the newest frame"""
     batch = Batch(ctx, every_step=False)
     total = 0
-    for si, start in enumerate(STARTS):
-        size = SIZES[si % len(SIZES)]
-        level = [[start]]
-        for d in range(depth + 1):
-            nxt = []
-            for ops in level:
-                case = {'ops': ops, 'size': list(size), 'cseed': 0, 'start': si}
-                w = batch.add(case)
-                total += 1
-                if d == depth or w.violations and any(k.startswith('exception') for k, _ in w.violations): continue
-                nf = len(w.frames)
-                targets = range(nf) if d + 1 < narrow_from else sorted({0, nf - 1})
-                n = 1 + sum(1 for o in ops if o[0] == 'write')
-                for t in targets:
-                    fmt = w.frames[t].format
-                    for a in ABSTRACT:
-                        nxt.append(ops + [concretise(a, t, fmt, n)])
-            level = nxt
+
+    def visit(ops, d, si, size):
+        nonlocal total
+        w = batch.add({'ops': ops, 'size': list(size), 'cseed': 0, 'start': si})
+        total += 1
+        if d == depth or any(k.startswith('exception') for k, _ in w.violations): return
+        nf = len(w.frames)
+        fmts = [f.format for f in w.frames]
+        targets = range(nf) if d + 1 < narrow_from else sorted({0, nf - 1})
+        n = 1 + sum(1 for o in ops if o[0] == 'write')
+        for t in targets:
+            for a in ABSTRACT:
+                visit(ops + [concretise(a, t, fmts[t], n)], d + 1, si, size)
+
+    for si in (range(len(STARTS)) if starts is None else starts):
+        visit([STARTS[si]], 0, si, SIZES[si % len(SIZES)])
     batch.flush()
     return total, batch.kinds
+
+
+def _exh_worker(args):
+    """one start frame in a forked worker (thorough tier)"""
+    from .. import core
+    si, depth, narrow, with_driver = args
+    res = core.Result()
+    ctx = type('Ctx', (), dict(driver=core.Driver() if with_driver else None, result=res))()
+    total, kinds = exhaustive(ctx, depth, narrow, [si])
+    viol, per = [], {}
+    for v in sorted(res.violations, key=lambda v: len(v.case['ops'])):
+        per[v.key] = per.get(v.key, 0) + 1
+        if per[v.key] <= 2: viol.append((v.key, v.what, v.case))
+    return dict(total=total, kinds=kinds, evaluations=res.evaluations, nontrivial=res.nontrivial, nviol=len(res.violations), viol=viol,
+                ndis=len(res.disagreements), dis=res.disagreements[:10], traces=res.traces_validated)
+
+
+def exhaustive_parallel(ctx, depth, narrow_from):
+    import multiprocessing, os
+    res = ctx.result
+    nproc = max(1, min(8, (os.cpu_count() or 2) - 1))
+    with multiprocessing.get_context('fork').Pool(nproc) as pool:
+        outs = pool.map(_exh_worker, [(si, depth, narrow_from, ctx.driver is not None) for si in range(len(STARTS))], chunksize=1)
+    total, kinds = 0, {}
+    for o in outs:
+        total += o['total']
+        for k, v in o['kinds'].items(): kinds[k] = kinds.get(k, 0) + v
+        res.evaluations += o['evaluations']; res.nontrivial |= o['nontrivial']; res.traces_validated += o['traces']
+        res.violations += [Violation(*v) for v in o['viol']]
+        res.disagreements += o['dis']
+        if o['ndis'] > len(o['dis']): res.extra['disagreements_truncated'] = res.extra.get('disagreements_truncated', 0) + o['ndis'] - len(o['dis'])
+    if not res.samples: res.samples.append({'ops': [STARTS[0], ['view', 'ro_rgb', 0], ['write', 0, 1], ['view', 'ro_rgb', 0]], 'size': [1, 1], 'cseed': 0})
+    return total, kinds
 
 
 def gen_random(ctx, batch, count):
@@ -478,10 +536,11 @@ def run(ctx):
     if ctx.thorough: depth, narrow, nrand = 4, 4, 30000
     elif ctx.escalate: depth, narrow, nrand = 3, 4, 6000
     else: depth, narrow, nrand = 3, 3, 2000
-    total, kinds = exhaustive(ctx, depth, narrow)
+    total, kinds = exhaustive_parallel(ctx, depth, narrow) if ctx.thorough else exhaustive(ctx, depth, narrow)
     rb = Batch(ctx, every_step=True)
     malformed = gen_random(ctx, rb, nrand)
     rb.flush()
+    res.violations.sort(key=lambda v: len(v.case['ops']))      # shortest failing sequence of each class becomes the replay
     res.extra['exhaustive_sequences'] = total
     res.extra['exhaustive_depth'] = depth
     res.extra['random_sequences'] = nrand
